@@ -416,6 +416,17 @@ func c18builtinSeeds() ([]c18seed, error) {
 			nest = append(n2, t...)
 		}
 		seeds = append(seeds, c18seed{id: "x:deepnest", kind: c18kObj, data: nest, feats: []string{"deepnest"}})
+		// nesting where every level claims as many elements as it has bytes left (the most the decoder accepts) while
+		// holding a single nested array: the claimed capacity is reserved at every level
+		{
+			claim := []byte{9, 0}
+			for len(claim) < 3000 {
+				t := append(c18vi(int64(len(claim))), claim...)
+				n2 := append([]byte{9}, c18vi(int64(len(t)))...)
+				claim = append(n2, t...)
+			}
+			seeds = append(seeds, c18seed{id: "x:deepnest-claim", kind: c18kObj, data: claim, feats: []string{"deepnest"}})
+		}
 		// the same nesting continued to 32 KiB: every level copies the rest of the buffer, allocation grows with the
 		// square of the input (known finding; only the unmutated input is decoded)
 		for len(nest) < 32000 {
